@@ -39,13 +39,15 @@ def answerProj (fs : List (String × String)) : String :=
       let xmax := maxAbsM X.get
       let qmax := maxAbsM q.get
       let pmax := maxAbsM P.get
-      let one (x : Rat) : Rat := if x < 1 then 1 else x
-      let scale := one (one xmax * one pmax * one qmax)
+      -- tolerances are RELATIVE to the magnitudes of the case (no absolute floor: data in tiny units are judged as strictly)
+      let nz (x : Rat) : Rat := if x == 0 then 1 else x
+      let one (x : Rat) : Rat := 1 + x
+      let scale := nz (if xmax < qmax then qmax else xmax) * nz pmax * ((D : Rat) + 1)
       -- 1. projection(x_i) = row i of the embedding: the same expression over the same doubles
       let ctrain := cmpMat T.get Y.get (εtight * scale)
       -- 2. the stored mean is the mean of the training samples
       let μD := DVec.ofFn (computeMean X.get)
-      let cmean := cmpMat (vecAsMat mu.get) (vecAsMat μD.get) (εtight * one xmax)
+      let cmean := cmpMat (vecAsMat mu.get) (vecAsMat μD.get) (εtight * nz xmax)
       -- 3. the function is x ↦ Pᵀ(x − mean) for the returned P, mean: on the training and on unseen vectors
       let Tm := DMat.ofFn (embedRows P.get mu.get X.get)
       let Qm := DMat.ofFn (embedRows P.get mu.get q.get)
